@@ -245,7 +245,9 @@ bool TabularDataFile::nextRow()
 		if (!readHeader())
 			return false;
 	}
-	if (_file.end() || !_file.readLine(line))
+	if (_file.end())
+		return false;
+	if (!_file.readLine(line) && !line.ok()) // a last row without newline is read, but reported as the end of the file
 		return false;
 	
 	if (!_dataStarted && line.length() >= 3 && line.startsWith("\xef\xbb\xbf")) // eat BOM
